@@ -439,7 +439,12 @@ func report(p *Program, id string, cfg *PropCfg, res *checkResult, tier string, 
 	}
 	assumptions := append([]string{}, cfg.Assumptions...)
 	for _, t := range sortedKeys(trusted) {
-		assumptions = append(assumptions, assumptionText[t])
+		if txt, ok := assumptionText[t]; ok {
+			assumptions = append(assumptions, txt)
+		} else {
+			// TRUSTED-CONTRACT <function>, DEFINITION by <function>: <clause>
+			assumptions = append(assumptions, t)
+		}
 	}
 	ev := evidence{PropertyID: id, Tier: tier, Seed: seed, Level: level, Coverage: cov, Assumptions: assumptions, WallS: wall, Violations: violations}
 	os.MkdirAll(filepath.Join(verifRoot(), "evidence"), 0o755)
@@ -463,6 +468,7 @@ var assumptionText = map[string]string{
 	"A-GLOBALS": "A-GLOBALS: package-level variables are not reassigned after initialisation",
 	"A-KEYS":    "A-KEYS: map keys containing strings are compared by representation (over-approximates Go equality)",
 	"A-RECV":    "A-RECV: pointer receivers of methods are non-nil",
+	"A-INV":     "A-INV: declared type invariants are checked where a value is created, stored, boxed, passed or returned by a function under contract, and assumed where it is read; invariants that read through a slice field (block.lines) additionally assume that nobody writes the slice's elements after construction (ownership is not tracked)",
 }
 
 func cmdList(args []string) {
